@@ -332,6 +332,8 @@ def r1b_audio_period(facts):
     def minlike(e):
         """(a < M ? a : M) and mirror images -> (a, M) shown"""
         e = strip(e)
+        if e is not None and 'callee' in e and short(callee_name(e)) == 'min' and len(e.get('a', [])) == 2:
+            return strip(e['a'][0]), strip(e['a'][1])
         if e is None or e.get('k') != 'ConditionalOperator':
             return None
         lits = [f for f in literals(e['cnd'], True) if f[0] == 'cmp']
